@@ -53,7 +53,7 @@ ChildEvent(e) ==
   IN /\ e.out.panic = ""
      /\ e.out.parent_unchanged                                    \* deriving children never modifies the parent object
      /\ IF ~Defined(e.in.curve, par.private, hardened)
-        THEN ~e.out.ok /\ e.out.key = <<>>                        \* undefined derivations fail with an error
+        THEN ~e.out.ok                                            \* undefined derivations fail with an error
         ELSE
         LET f == e.facts.hmac
             kparBN == IF par.private /\ IsEcdsa(e.in.curve) THEN BNFromBytesBE(par.key) ELSE <<>>
